@@ -7,7 +7,7 @@
 //
 //   expr   := (just N) (jerr N) (jdone) (argv N) (sir) (leaf N) (jfrom N) (jvod 0|1) (iv E) (dfr E) (alc E)
 //             (then FN E) (uerr FN E) (udone N E) (md E) (dao N E) (uns E) (tag N E) (src E) (era E)
-//             (lv A B) (le A B) (ld A B) (seq A B) (fin A B) (wa A B) (sw A B)
+//             (lv A B) (le A B) (ld A B) (seq A B) (fin A B) (wa A B) (sw A B) (any A B)
 //   FN     := add:K | thr:E | tie:C:E:K
 //   specs  := I=i:vN | I=i:eN | I=i:d | I=p:ign | I=p:done          (space separated)
 //   events := start | stop | cI:vN | cI:eN | cI:d                   (space separated)
@@ -47,6 +47,7 @@
 #include <unifex/upon_done.hpp>
 #include <unifex/upon_error.hpp>
 #include <unifex/when_all.hpp>
+#include <unifex/when_any.hpp>
 #include <unifex/with_query_value.hpp>
 
 #include <algorithm>
@@ -256,6 +257,7 @@ static Any build(World* w, const Node& n, int arg) {
                       return (int)(((long long)std::get<0>(std::get<0>(a)) * 1000 + std::get<0>(std::get<0>(b))) % 1000003);
                     })};
   }
+  if (k == "any") return Any{when_any(build(w, n.ch.at(0), arg), build(w, n.ch.at(1), arg))};
   if (k == "sw") return Any{stop_when(build(w, n.ch.at(0), arg), discard(build(w, n.ch.at(1), arg)))};
   throw std::runtime_error("unknown node " + k);
 }
